@@ -118,7 +118,7 @@ func closedCheckDigit(rdfi string) string {
 }
 
 // NPerturb is the number of perturbation kinds.
-const NPerturb = 28
+const NPerturb = 29
 
 // Perturb changes f in place (f must be a private clone).  It returns a description,
 // the batch it touched (ok=false: a file level change) and whether anything changed.
@@ -382,6 +382,23 @@ func Perturb(r *rng.R, f *ach.File, kind int) (desc string, t Target, batchLevel
 		case 24:
 			pm(fc.cred)
 			desc = "file control credit total +-1"
+		case 28:
+			// an entry of the other family inside a batch: an ADVEntryDetail in a standard batch (it is neither
+			// tabulated nor written)
+			if len(f.Batches) == 0 {
+				return "no standard batches", t, false, false
+			}
+			i := r.Intn(len(f.Batches))
+			b := f.Batches[i]
+			if b.GetHeader().StandardEntryClassCode == ach.ADV {
+				// (a standard entry in an ADV batch is refused by rules outside the arithmetic model)
+				return "ADV batch", t, false, false
+			}
+			src := gen.ADVFile(r).Batches[0].GetADVEntries()[0]
+			b.AddADVEntry(src)
+			desc = "ADV entry added to a standard batch"
+			t = Target{Idx: i}
+			batchLevel = true
 		case 27:
 			// a batch of the other family: an ADV batch behind the batches of a non-ADV file, or a
 			// standard batch behind those of an ADV file (an ADV file may hold ADV batches only)
@@ -431,7 +448,7 @@ func Perturb(r *rng.R, f *ach.File, kind int) (desc string, t Target, batchLevel
 // re-tabulating with Create() gives a consistent file again).
 func EntryLevel(kind int) bool {
 	switch kind {
-	case 10, 11, 14, 16, 17, 18, 19, 27:
+	case 10, 11, 14, 16, 17, 18, 19, 27, 28:
 		return true
 	}
 	return false
